@@ -30,7 +30,7 @@ class Cfg:
 POOL = ["", "a", "\u00e9", "xyz"]
 # floats chosen by symbolic index when the structural code only passes them through
 # (every double is covered bit-exactly at layer 1): includes an int written under float/double
-FPOOL = [0.0, -0.0, 1.5, 3, 5e-324, float("inf"), -2.25]
+FPOOL = [-0.0, 1.5, 3, 5e-324, float("inf")]
 
 
 def ann(node, names, cfg, depth=None):
@@ -69,13 +69,27 @@ def ann(node, names, cfg, depth=None):
     raise AssertionError(k)
 
 
-def build(node, names, v, cfg, depth=None):
+class Hints:
+    """union hints consumed in encounter order: 0 none, 1 (name, value) tuple, 2 '-type' key
+    (record branches), 3 a tuple naming no branch"""
+
+    def __init__(self, hs=()):
+        self.hs, self.i = list(hs), 0
+        self.wrong = False
+        self.used = 0
+
+    def next(self):
+        self.i += 1
+        return self.hs[self.i - 1] if self.i <= len(self.hs) else 0
+
+
+def build(node, names, v, cfg, depth=None, hints=None):
     depth = cfg.depth if depth is None else depth
     k = node["k"]
     if k == "ref":
         if depth <= 0:
             raise OutOfDomain()
-        return build(names[node["name"]], names, v, cfg, depth - 1)
+        return build(names[node["name"]], names, v, cfg, depth - 1, hints)
     if k == "null":
         return None
     if k == "boolean":
@@ -95,9 +109,10 @@ def build(node, names, v, cfg, depth=None):
             if v != v:
                 raise OutOfDomain()  # NaN: compared by class at layer 1
             return v
-        if not (0 <= v < len(FPOOL)):
-            raise OutOfDomain()
-        return FPOOL[v]
+        for i, x in enumerate(FPOOL):  # explicit chain: the result stays a concrete number
+            if v == i:
+                return x
+        raise OutOfDomain()
     if k == "bytes":
         if len(v) > cfg.SL:
             raise OutOfDomain()
@@ -107,9 +122,10 @@ def build(node, names, v, cfg, depth=None):
             if len(v) > cfg.SL:
                 raise OutOfDomain()
             return v
-        if not (0 <= v < len(POOL)):
-            raise OutOfDomain()
-        return POOL[v]
+        for i, x in enumerate(POOL):
+            if v == i:
+                return x
+        raise OutOfDomain()
     if k == "fixed":
         if len(v) != node["size"]:
             raise OutOfDomain()
@@ -121,16 +137,36 @@ def build(node, names, v, cfg, depth=None):
     if k == "array":
         if len(v) > cfg.K:
             raise OutOfDomain()
-        return [build(node["items"], names, x, cfg, depth) for x in v]
+        return [build(node["items"], names, x, cfg, depth, hints) for x in v]
     if k == "map":
         if len(v) > cfg.K:
             raise OutOfDomain()
-        return {f"k{i}": build(node["values"], names, x, cfg, depth) for i, x in enumerate(v)}
+        return {f"k{i}": build(node["values"], names, x, cfg, depth, hints) for i, x in enumerate(v)}
     if k == "union":
         i = v[0]
         if not (0 <= i < len(node["branches"])):
             raise OutOfDomain()
-        return build(node["branches"][i], names, v[1 + i], cfg, depth)
+        val = build(node["branches"][i], names, v[1 + i], cfg, depth, hints)
+        if hints is None:
+            return val
+        h = hints.next()
+        if h == 0:
+            return val
+        from .oracles.ir import branch_name, deref as _deref
+        if h == 1:
+            hints.used += 1
+            return (branch_name(node["branches"][i], names), val)
+        if h == 2:
+            if _deref(node["branches"][i], names)["k"] != "record":
+                raise OutOfDomain()
+            hints.used += 1
+            val = dict(val)
+            val["-type"] = branch_name(node["branches"][i], names)
+            return val
+        if h == 3:
+            hints.wrong = True
+            return ("no.such.Branch", val)
+        raise OutOfDomain()
     if k == "record":
         if not node["fields"]:
             return {}
@@ -142,7 +178,7 @@ def build(node, names, v, cfg, depth=None):
                 present, x = x
                 if not present:
                     continue
-            d[f["name"]] = build(f["t"], names, x, cfg, depth)
+            d[f["name"]] = build(f["t"], names, x, cfg, depth, hints)
         return d
     raise AssertionError(k)
 
